@@ -253,7 +253,10 @@ func (m *orderedMap) Get(key string) expiringRecord {
 
 func (m *orderedMap) Keys() []string {
 	sort.Strings(m.keys)
-	return m.keys
+	// return a copy: callers delete entries while ranging over the result
+	keys := make([]string, len(m.keys))
+	copy(keys, m.keys)
+	return keys
 }
 
 func (m *orderedMap) Delete(key string) {
